@@ -1,0 +1,132 @@
+//! Verification hook: expansion recorder.
+//!
+//! Only compiled under `--cfg audunhalland_entrait_verif`. Appends one JSON line
+//! `{"macro":..,"attr":..,"input":..,"output":..}` per macro invocation to the file
+//! `${ENTRAIT_VERIF_DUMP}.<pid>`. Token streams are serialised structurally:
+//! `{"i":"ident"}`, `{"p":"+","j":true}` (punct, joint), `{"l":"1u8"}` (literal text),
+//! `{"g":"(", "s":[..]}` (group; delimiter one of `(`, `[`, `{`, ` `).
+//! `output` is `null` when the invocation returned early (argument / item parse error).
+//!
+//! No behaviour of the macro is changed.
+
+use std::cell::Cell;
+use std::io::Write;
+
+thread_local! {
+    static MACRO_NAME: Cell<&'static str> = const { Cell::new("?") };
+}
+
+pub fn set_macro(name: &'static str) {
+    MACRO_NAME.with(|cell| cell.set(name));
+}
+
+pub struct Recording {
+    macro_name: &'static str,
+    attr: String,
+    input: String,
+    finished: bool,
+}
+
+impl Recording {
+    pub fn start(attr: &proc_macro::TokenStream, input: &proc_macro::TokenStream) -> Self {
+        Self {
+            macro_name: MACRO_NAME.with(|cell| cell.get()),
+            attr: stream_json(proc_macro2::TokenStream::from(attr.clone())),
+            input: stream_json(proc_macro2::TokenStream::from(input.clone())),
+            finished: false,
+        }
+    }
+
+    pub fn finish(mut self, output: &proc_macro2::TokenStream) {
+        self.finished = true;
+        self.write(&stream_json(output.clone()));
+    }
+
+    fn write(&self, output: &str) {
+        let path = match std::env::var("ENTRAIT_VERIF_DUMP") {
+            Ok(path) if !path.is_empty() => path,
+            _ => return,
+        };
+        let line = format!(
+            "{{\"macro\":\"{}\",\"attr\":{},\"input\":{},\"output\":{}}}\n",
+            self.macro_name, self.attr, self.input, output
+        );
+        if let Ok(mut file) = std::fs::OpenOptions::new()
+            .create(true)
+            .append(true)
+            .open(format!("{}.{}", path, std::process::id()))
+        {
+            let _ = file.write_all(line.as_bytes());
+        }
+    }
+}
+
+impl Drop for Recording {
+    fn drop(&mut self) {
+        if !self.finished {
+            self.write("null");
+        }
+    }
+}
+
+fn stream_json(stream: proc_macro2::TokenStream) -> String {
+    let mut out = String::from("[");
+    let mut first = true;
+    for tt in stream {
+        if !first {
+            out.push(',');
+        }
+        first = false;
+        match tt {
+            proc_macro2::TokenTree::Ident(ident) => {
+                out.push_str("{\"i\":");
+                json_str(&ident.to_string(), &mut out);
+                out.push('}');
+            }
+            proc_macro2::TokenTree::Punct(punct) => {
+                out.push_str("{\"p\":");
+                json_str(&punct.as_char().to_string(), &mut out);
+                if punct.spacing() == proc_macro2::Spacing::Joint {
+                    out.push_str(",\"j\":true");
+                }
+                out.push('}');
+            }
+            proc_macro2::TokenTree::Literal(literal) => {
+                out.push_str("{\"l\":");
+                json_str(&literal.to_string(), &mut out);
+                out.push('}');
+            }
+            proc_macro2::TokenTree::Group(group) => {
+                let delim = match group.delimiter() {
+                    proc_macro2::Delimiter::Parenthesis => "(",
+                    proc_macro2::Delimiter::Bracket => "[",
+                    proc_macro2::Delimiter::Brace => "{",
+                    proc_macro2::Delimiter::None => " ",
+                };
+                out.push_str("{\"g\":");
+                json_str(delim, &mut out);
+                out.push_str(",\"s\":");
+                out.push_str(&stream_json(group.stream()));
+                out.push('}');
+            }
+        }
+    }
+    out.push(']');
+    out
+}
+
+fn json_str(s: &str, out: &mut String) {
+    out.push('"');
+    for c in s.chars() {
+        match c {
+            '"' => out.push_str("\\\""),
+            '\\' => out.push_str("\\\\"),
+            '\n' => out.push_str("\\n"),
+            '\r' => out.push_str("\\r"),
+            '\t' => out.push_str("\\t"),
+            c if (c as u32) < 0x20 => out.push_str(&format!("\\u{:04x}", c as u32)),
+            c => out.push(c),
+        }
+    }
+    out.push('"');
+}
